@@ -293,3 +293,25 @@ func ParseTerm(src string) (*rt.Term, error) {
 	}
 	return rt.Canon([]*rt.Term{Convert(t, nil)})[0], nil
 }
+
+// ParseTermNames is ParseTerm that also returns the source names of the variables, indexed by
+// their canonical ids.
+func ParseTermNames(src string) (*rt.Term, []string, error) {
+	p := prolog.New(nil, nil)
+	ps := engine.NewParser(&p.VM, strings.NewReader(src+" ."))
+	t, err := ps.Term()
+	if err != nil {
+		return nil, nil, fmt.Errorf("parse %q: %w", src, err)
+	}
+	raw := Convert(t, nil)
+	byID := map[int64]string{}
+	for _, v := range ps.Vars {
+		byID[int64(v.Variable)] = v.Name.String()
+	}
+	ids := raw.Vars(nil)
+	names := make([]string, len(ids))
+	for i, id := range ids {
+		names[i] = byID[id]
+	}
+	return rt.Canon([]*rt.Term{raw})[0], names, nil
+}
